@@ -17,6 +17,14 @@ theorem NoPanic.bind {α β : Type} {x : Res α} {f : α → Res β}
   | diag m => cases h
   | panic q => exact hx q rfl
 
+theorem NoPanic.bind' {α β : Type} {x : Res α} {f : α → Res β}
+    (hx : NoPanic x) (hf : ∀ a, x = .ok a → NoPanic (f a)) : NoPanic (x.bind f) := by
+  intro p h
+  cases x with
+  | ok a => exact hf a rfl p h
+  | diag m => cases h
+  | panic q => exact hx q rfl
+
 theorem noPanic_failAt_fixed {α : Type} (p : Panic) (m : Str) : NoPanic (failAt true p m : Res α) := by
   simp [failAt]; exact noPanic_diag m
 
@@ -430,7 +438,6 @@ theorem aaaHost_noPanic (orig parsed : Str) (h : 3 ≤ (fields parsed).length) :
     split
     · exact absurd rfl hw2
     · rename_i c tl
-      simp only
       split
       · rename_i h' tl' hws
         split
@@ -440,8 +447,11 @@ theorem aaaHost_noPanic (orig parsed : Str) (h : 3 ≤ (fields parsed).length) :
         · exact noPanic_ok _
       · rename_i hws
         exfalso
-        trace_state
-        sorry
+        split at hws
+        · split at hws
+          · simp at hws
+          · simp at hws
+        · simp at hws
   · rename_i hf
     exfalso
     match hfp : fields parsed, h, hf with
@@ -449,6 +459,50 @@ theorem aaaHost_noPanic (orig parsed : Str) (h : 3 ≤ (fields parsed).length) :
     | [_], h, _ => simp at h
     | [_, _], h, _ => simp at h
     | a :: b :: c :: r, _, hf => exact hf a b c r rfl
+
+theorem subRef_noPanic (c : Cmd) (h : ∀ s ∈ c.sub, s.ref ≠ []) : NoPanic (subRef c) := by
+  unfold subRef
+  split
+  · exact noPanic_ok _
+  · rename_i s0 _ hs
+    split
+    · exact noPanic_ok _
+    · rename_i hr
+      exact absurd hr (h s0 (by rw [hs]; simp))
+
+theorem aaaRest_noPanic (name : Str) : ∀ (cs : List Cmd) (ldapMap : Str),
+    (∀ c ∈ cs, 3 ≤ (fields c.parsed).length) → (∀ c ∈ cs, ∀ s ∈ c.sub, s.ref ≠ []) →
+    NoPanic (aaaRest true name ldapMap cs)
+  | [], _, _, _ => by unfold aaaRest; exact noPanic_ok _
+  | c :: cs, ldapMap, h1, h2 => by
+    have h1' : ∀ x ∈ cs, 3 ≤ (fields x.parsed).length := fun x hx => h1 x (List.mem_cons_of_mem _ hx)
+    have h2' : ∀ x ∈ cs, ∀ s ∈ x.sub, s.ref ≠ [] := fun x hx => h2 x (List.mem_cons_of_mem _ hx)
+    unfold aaaRest
+    refine NoPanic.bind (aaaHost_noPanic _ _ (h1 c (by simp))) fun o => ?_
+    split
+    · exact NoPanic.bind (aaaRest_noPanic name cs _ h1' h2') fun r => noPanic_ok _
+    · refine NoPanic.bind (subRef_noPanic c (h2 c (by simp))) fun ref => ?_
+      split
+      · exact noPanic_diag _
+      · exact NoPanic.bind (aaaRest_noPanic name cs _ h1' h2') fun r => noPanic_ok _
+
+/-- the aaa-server part of `postprocessParsed` for one name: the list stored in the lookup map is
+never empty (entries are only created by `append`), every command has at least three words
+(`aaa-server $NAME *`), the one sub command template has a `$REF`. -/
+theorem aaaGroup_noPanic (name : Str) (l : List Cmd) (hne : l ≠ [])
+    (h1 : ∀ c ∈ l, 3 ≤ (fields c.parsed).length) (h2 : ∀ c ∈ l, ∀ s ∈ c.sub, s.ref ≠ []) :
+    NoPanic (aaaGroup true name l) := by
+  unfold aaaGroup
+  split
+  · exact absurd rfl hne
+  · rename_i c0 rest
+    split
+    · exact noPanic_ok _
+    · split
+      · exact noPanic_ok _
+      · exact NoPanic.bind (aaaRest_noPanic name rest _
+          (fun x hx => h1 x (List.mem_cons_of_mem _ hx)) (fun x hx => h2 x (List.mem_cons_of_mem _ hx)))
+          fun r => noPanic_ok _
 
 /-- `stripMetric` never panics: `tokens[:5]` is guarded by `len(tokens) == 6`. -/
 theorem stripMetric_noPanic (parsed : Str) : NoPanic (stripMetric parsed) := by
@@ -546,5 +600,28 @@ theorem iosACL_noPanic (tb : Tables) (orig parsed : Str)
     split
     · exact noPanic_ok _
     · exact NoPanic.bind (noPanic_aclParts tb _ _) (fun r => noPanic_ok _)
+
+/-! ### index arithmetic of the remaining sites -/
+
+/-- in-place compaction `l[j] = c; j++` inside `for _, c := range l`, then `l[:j]`: `j` never
+overtakes the loop index. -/
+theorem compact_index_ok (i j n : Nat) (hj : j ≤ i) (hi : i < n) : j < n ∧ j + 1 ≤ n := by omega
+
+/-- an index below the checked length is in range (`len(tokens) == 5` then `tokens[4]`,
+`len(ipList) == 0` excluded then `ipList[0]`). -/
+theorem guarded_index_ok {α : Type} (l : List α) (k : Nat) (h : k < l.length) : (l[k]?).isSome = true := by
+  simp [h]
+
+/-- `data[i+1:]` with `i = bytes.IndexByte(data, c)`: `-1 ≤ i < len(data)`. -/
+theorem slice_from_index_ok (i : Int) (n : Nat) (h1 : -1 ≤ i) (h2 : i < n) : 0 ≤ i + 1 ∧ i + 1 ≤ n := by omega
+
+/-- `aAddr[i]` for `i` ranging over `bAddr` after `len(aAddr) != len(bAddr)` was excluded. -/
+theorem eqlen_index_ok {α : Type} (a b : List α) (i : Nat) (h : a.length = b.length) (hi : i < b.length) :
+    i < a.length := by omega
+
+/-- Contract of the third-party `myers.Diff` (trusted base, DESIGN.md section 4): `Equal(ai, bi)` is
+called with `ai < LenA()`, `bi < LenB()`, and every range of the script lies inside the lists.
+Under that contract the slices `l[r.LowA:r.HighA]` and indices `l[ai]` are in range. -/
+theorem myers_range_ok (lo hi n : Nat) (h1 : lo ≤ hi) (h2 : hi ≤ n) : lo ≤ n ∧ hi - lo ≤ n := by omega
 
 end NA.C20
